@@ -17,6 +17,7 @@ Inductive top : list winstr -> Prop :=
 | top_prep c : top c -> top (WPrep :: c)
 | top_end c : top c -> top (WEnd :: c)
 | top_closet c : top c -> top (WCloseT :: c)
+| top_recv c : top c -> top (WRecv :: c)
 | top_acq b f c : in_test f c -> top (WAcq b :: c)
 with in_test : frame -> list winstr -> Prop :=
 | it_test f c : in_wr f [] (chunks_of f) c -> in_test f (WTest :: c)
@@ -70,7 +71,7 @@ Proof.
   - rewrite <- app_assoc. apply top_frame_code; [exact Hc|]. cbn. now apply top_end.
   - cbn [app]. apply top_prep. rewrite <- app_assoc. apply top_frames_code; [exact Hw|]. cbn. now apply top_end.
   - cbn. apply top_closet. now apply top_end.
-  - rewrite <- app_assoc. apply top_frame_code; [exact Hc|]. cbn. now apply top_end.
+  - cbn [app]. apply top_recv. rewrite <- app_assoc. apply top_frame_code; [exact Hc|]. cbn. now apply top_end.
 Qed.
 
 (* ------------------------------------------------------------------ the invariant *)
@@ -240,7 +241,7 @@ Proof.
 Qed.
 
 Lemma top_head ins rest : top (ins :: rest) ->
-  match ins with WPrep | WEnd | WCloseT | WAcq _ => True | _ => False end.
+  match ins with WPrep | WEnd | WCloseT | WAcq _ | WRecv => True | _ => False end.
 Proof. intros H. inversion H; exact I. Qed.
 
 Lemma okhold_head s ins rest : okhold s (ins :: rest) ->
@@ -266,7 +267,7 @@ Proof.
   destruct (wcode t) as [|ins rest] eqn:Ec; [exact HI|].
   pose proof (inv_thr s HI i t Ei) as Hst. unfold thr_ok in Hst. rewrite Ec in Hst.
   assert (Hex : exists t, nth_error (wths s) i = Some t) by eauto.
-  destruct ins as [|tmo| |fatal x|b| | | | |].
+  destruct ins as [|tmo| |fatal x|b| | | | | |].
   - (* WPrep: only at top *)
     destruct Hst as [(Hn & [Htop|(Hcs & _)])|(Hh & [(_ & Hok)|(_ & Hcs & _)])]; try absurd_status.
     inversion Htop; subst.
@@ -274,7 +275,7 @@ Proof.
     left. fields. split; [exact Hn|now left].
   - (* WAcq: only at top *)
     destruct Hst as [(Hn & [Htop|(Hcs & _)])|(Hh & [(_ & Hok)|(_ & Hcs & _)])]; try absurd_status.
-    inversion Htop as [| | | |b0 f c0 Hit]; subst.
+    inversion Htop as [| | | | |b0 f c0 Hit]; subst.
     destruct (wfail t) as [e|] eqn:Ef.
     + eapply inv_frame; try eassumption; fields; try reflexivity; auto.
       left. fields. split; [exact Hn|right]. split; [eapply cs_test; eauto|discriminate].
@@ -421,6 +422,11 @@ Proof.
     left. fields. split; [exact Hn|now left].
   - (* WBad: in no shape *)
     destruct Hst as [(Hn & [Htop|(Hcs & _)])|(Hh & [(_ & Hok)|(_ & Hcs & _)])]; absurd_status.
+  - (* WRecv: only at top *)
+    destruct Hst as [(Hn & [Htop|(Hcs & _)])|(Hh & [(_ & Hok)|(_ & Hcs & _)])]; try absurd_status.
+    inversion Htop; subst.
+    eapply inv_frame; try eassumption; fields; try reflexivity; auto.
+    left. fields. split; [exact Hn|now left].
 Qed.
 
 (* ------------------------------------------------------------------ reachable states *)
@@ -489,7 +495,7 @@ Proof.
   destruct (nth_error (wths s) i) as [t|] eqn:Ei; [|auto].
   destruct (wcode t) as [|ins rest] eqn:Ec; [auto|].
   destruct (werr s) as [e|] eqn:Ee; [|now contradiction He].
-  destruct ins as [|tmo| |fatal x|b| | | | |]; fields; auto.
+  destruct ins as [|tmo| |fatal x|b| | | | | |]; fields; auto.
   - destruct (wfail t); fields; auto. destruct (wlk s); fields; auto. destruct tmo; fields; auto.
   - destruct (wfail t); fields; auto.
   - destruct (wfail t) eqn:Ef; fields; auto.
@@ -579,7 +585,7 @@ Proof.
   destruct (nth_error (wths s) j) as [t|] eqn:Ej; [|now left].
   destruct (wcode t) as [|ins rest] eqn:Ec; [now left|].
   remember (wfail t) as tf0 eqn:Etf0.
-  destruct ins as [|tmo| |fatal x|b| | | | |];
+  destruct ins as [|tmo| |fatal x|b| | | | | |];
     repeat match goal with
            | |- context [match ?x with _ => _ end] => destruct x eqn:?
            end;
@@ -830,7 +836,7 @@ Proof.
   destruct o as [tmo f|fs| |f]; cbn [op_code control_only] in *; try contradiction.
   - apply in_app_iff in Hin. destruct Hin as [Hin|[H|[]]]; [|discriminate]. exact (no_prep_frame_code csk tmo f Hc Hin).
   - destruct Hin as [H|[H|[]]]; discriminate.
-  - apply in_app_iff in Hin. destruct Hin as [Hin|[H|[]]]; [|discriminate]. exact (no_prep_frame_code csk false f Hc Hin).
+  - destruct Hin as [H|Hin]; [discriminate|]. apply in_app_iff in Hin. destruct Hin as [Hin|[H|[]]]; [|discriminate]. exact (no_prep_frame_code csk false f Hc Hin).
 Qed.
 
 Lemma find_cex4_sound wsk csk b sched :
